@@ -508,6 +508,13 @@ def _run(c, rebound, exe, W, d):
     v = probe_variant(c, rebound, os.path.join(W, "probe"))
     V = vstr(v)
     cad_repaired = ac.probe_cadence_variant(rebound, os.path.join(W, "probe"))
+    # extracted: the field table of the library under test against the struct (Python mirror): a scalar dtype whose size is not
+    # the member's size truncates / over-reads that member in every snapshot
+    c.cov["field_table"] = ac.image_table_report(rebound)
+    if c.cov["field_table"]["dtype_size_mismatch"]:
+        c.corr_break("field table dtype size differs from the struct member size [name, id, dtype bytes, member bytes]: %s" % c.cov["field_table"]["dtype_size_mismatch"][:4])
+    if c.cov["field_table"]["scalar_members_resolved"] < 100:
+        c.corr_break("field table: only %d scalar members resolved against the struct mirror" % c.cov["field_table"]["scalar_members_resolved"])
     c.cov["source_variant"] = {"F1_fixed": v[0], "F11_fixed": v[1], "F19_fixed": v[3], "F18_particles_bitwise": v[4], "F5_varconfig_memberwise": v[5],
                                "cadence_skips_passed_times": cad_repaired}
     c.log("source behaves as model variant", V)
@@ -796,6 +803,8 @@ def _run(c, rebound, exe, W, d):
                     row[fk] = None
             if row["roles"] == "variational" and "variation" in sk:
                 row["roles"] = None
+            if row.get("prev", "none") != "none" and "integrator" in sk:
+                row["prev"] = None
             if back.get("error") or reduced:
                 row["restore"] = None
             if row.get("restore") == "c_api":
@@ -881,6 +890,20 @@ def _run(c, rebound, exe, W, d):
                     V(K_F18, "snapshot %d restores +0.0 where the live particle coordinate was -0.0 (reb_particle_diff compares with !=)" % k, rep)
                 else:
                     V("snapshot-differs:%s" % key[0], "snapshot %d differs from the live state in field ids %s (file) / %s (loader)" % (k, dd[:8], dl[:8]), rep)
+            # memory image of the live state (struct members and the arrays they point to, read without the stream writer)
+            # against (i) the serialisation written at that moment, (ii) the memory image of the restored snapshot
+            idf = meta["appends"][k].get("image_diff")
+            if idf is not None:
+                stats["image_vs_stream_checks"] = stats.get("image_vs_stream_checks", 0) + 1
+                if idf:
+                    V("image:%d" % idf[0][0], "snapshot %d: the serialisation written by reb_simulation_save_to_stream differs from the live memory in field id(s) %s "
+                      "([id, bytes in memory, bytes in the stream])" % (k, idf[:6]), rep)
+            rdf = (back.get("image_diff") or {}).get(str(k))
+            if rdf is not None:
+                stats["restored_image_checks"] = stats.get("restored_image_checks", 0) + 1
+                if rdf:
+                    V("restored-image:%d" % rdf[0][0], "snapshot %d restored: memory differs from the live memory at save time in field id(s) %s "
+                      "([id, bytes live, bytes restored])" % (k, rdf[:6]), rep)
             lv = meta["appends"][k].get("live")
             rv_ = back["vals"][k] if k < len(back.get("vals", [])) else None
             if lv is not None and rv_ is not None:
@@ -958,7 +981,7 @@ def _run(c, rebound, exe, W, d):
             for b_ in F6["eventB"]:
                 for i_ in range(len(F6["integrator"])):
                     row = dict(integrator=F6["integrator"][(len(tri_all) + i_) % len(F6["integrator"])], first=f_, cadence="manual", eventA=a_, eventB=b_,
-                               roles=("variational" if a_ == "lrescale" else "plain"), restore=F6["restore"][len(tri_all) % len(F6["restore"])])
+                               roles=("variational" if a_ == "lrescale" else "plain"), prev="none", restore=F6["restore"][len(tri_all) % len(F6["restore"])])
                     ks_ = sorted(row)
                     if not any(ac.c06_excluded(x_, row[x_], y_, row[y_]) for ix_, x_ in enumerate(ks_) for y_ in ks_[ix_ + 1:]):
                         tri_all.append((f_, a_, b_))
@@ -967,7 +990,7 @@ def _run(c, rebound, exe, W, d):
     if c.thorough:
         prows = list(prow_all) + tri_rows
     else:
-        nsl = 84
+        nsl = 90
         off = ((c.seed - 1) * nsl) % len(prow_all)
         prows = (prow_all + prow_all)[off:off + nsl]
     c.cov["pairwise_rows"] = {"array": len(prow_all), "this_run": len(prows)}
